@@ -96,6 +96,43 @@ fn transcript<C: S>(g: &str, seed: u64, m: &mut Map<String, Value>) {
             m.insert(format!("{}/multisig-verifies/{}", g, sn), json!(multi.verify(mpk, &ms[3]).is_ok()));
         }
     }
+    // aggregates over a collision alphabet: equal keys (adjacent or not), a key and its negation, equal messages,
+    // messages that differ only in bytes that are not valid UTF-8; every list of length 2, and of length 3 under PoP
+    {
+        let cks: Vec<&SecretKey<C>> = vec![&ks[0].1, &ks[2].1, &ks[3].1];
+        let cms: Vec<Vec<u8>> = vec![vec![0x01, 0xff], vec![0x01, 0xfe], vec![]];
+        let np = cks.len() * cms.len();
+        for (sn, s) in SCHEMES {
+            let table: Vec<(PublicKey<C>, Vec<u8>, Signature<C>)> = (0..np).map(|i| (cks[i / cms.len()].public_key(), cms[i % cms.len()].clone(), cks[i / cms.len()].sign(s, &cms[i % cms.len()]).unwrap())).collect();
+            let mut lists: Vec<Vec<usize>> = vec![];
+            for a in 0..np {
+                for b in 0..np {
+                    lists.push(vec![a, b]);
+                    if sn == "ProofOfPossession" {
+                        for c in 0..np {
+                            lists.push(vec![a, b, c]);
+                        }
+                    }
+                }
+            }
+            for l in lists {
+                let sigs: Vec<Signature<C>> = l.iter().map(|i| table[*i].2).collect();
+                let pairs: Vec<(PublicKey<C>, Vec<u8>)> = l.iter().map(|i| (table[*i].0, table[*i].1.clone())).collect();
+                let agg = AggregateSignature::<C>::from_signatures(&sigs).unwrap();
+                let name = l.iter().map(|i| i.to_string()).collect::<Vec<_>>().join("-");
+                m.insert(format!("{}/aggregate-collision/{}/{}/bytes", g, sn, name), json!(hx(Vec::from(&agg))));
+                m.insert(format!("{}/aggregate-collision/{}/{}/verifies", g, sn, name), json!(agg.verify(&pairs).is_ok()));
+                // the first signature alone presented for the whole list
+                let first = AggregateSignature::<C>::try_from(Vec::from(&agg).as_slice()).map(|_| ()).is_ok();
+                let lone = match s {
+                    SignatureSchemes::Basic => AggregateSignature::<C>::Basic(*sigs[0].as_raw_value()),
+                    SignatureSchemes::MessageAugmentation => AggregateSignature::<C>::MessageAugmentation(*sigs[0].as_raw_value()),
+                    SignatureSchemes::ProofOfPossession => AggregateSignature::<C>::ProofOfPossession(*sigs[0].as_raw_value()),
+                };
+                m.insert(format!("{}/aggregate-collision/{}/{}/first-part-alone-verifies", g, sn, name), json!(lone.verify(&pairs).is_ok() && first));
+            }
+        }
+    }
     // larger aggregates and multi-signatures (many pairing terms): verdicts must agree across backends
     for n in [15usize, 16, 17, 33] {
         let sks: Vec<SecretKey<C>> = (0..n).map(|i| SecretKey::<C>::from_hash(format!("xb-agg-{}", i))).collect();
